@@ -160,6 +160,7 @@ type histGen struct {
 	campEvery, campFailEvery int
 	campKinds                []int
 	slowBlocks               bool
+	focus                    []int // families that every second transaction is drawn from (directed histories)
 	campVoted map[int]bool
 	campKind  string
 	special   map[int64]string   // height -> what special thing happened in that block
@@ -468,6 +469,9 @@ func (g *histGen) tx() {
 	if g.boostRewardFees && rng.Intn(5) == 0 {
 		f = 28
 	}
+	if len(g.focus) > 0 && rng.Intn(2) == 0 {
+		f = g.focus[rng.Intn(len(g.focus))]
+	}
 	switch {
 	case f == 43: // value aimed at module accounts: by an Ethereum transfer, by a contract call, as a self-destruct beneficiary, by bank messages
 		mods := []string{"distribution", "bonded_tokens_pool", "not_bonded_tokens_pool", "gov", "fee_collector", "evm", "erc20", "coinomics", "transfer"}
@@ -495,10 +499,23 @@ func (g *histGen) tx() {
 				}
 			}
 		case 3:
-			g.cosmos("bank.send-to-module-account", a, banktypes.NewMsgSend(a.Addr, sdk.AccAddress(target.Bytes()), sdk.NewCoins(amt(10))))
+			// the recipient is spelled in lower case or (equally valid bech32) in upper case
+			to, fam := sdk.AccAddress(target.Bytes()).String(), "bank.send-to-module-account"
+			if rng.Intn(2) == 0 {
+				to, fam = strings.ToUpper(to), fam+"(upper-case-bech32)"
+			}
+			if g.cosmos(fam, a, &banktypes.MsgSend{FromAddress: a.Addr.String(), ToAddress: to, Amount: sdk.NewCoins(amt(10))}) {
+				g.constr["module-account-received-bank-send"]++
+			}
 		default:
 			c := amt(10)
-			g.cosmos("bank.multisend-to-module-account", a, banktypes.NewMsgMultiSend([]banktypes.Input{{Address: a.Addr.String(), Coins: sdk.NewCoins(c)}}, []banktypes.Output{{Address: sdk.AccAddress(target.Bytes()).String(), Coins: sdk.NewCoins(c)}}))
+			to, fam := sdk.AccAddress(target.Bytes()).String(), "bank.multisend-to-module-account"
+			if rng.Intn(2) == 0 {
+				to, fam = strings.ToUpper(to), fam+"(upper-case-bech32)"
+			}
+			if g.cosmos(fam, a, banktypes.NewMsgMultiSend([]banktypes.Input{{Address: a.Addr.String(), Coins: sdk.NewCoins(c)}}, []banktypes.Output{{Address: to, Coins: sdk.NewCoins(c)}})) {
+				g.constr["module-account-received-bank-send"]++
+			}
 		}
 	case f == 45: // a grant applied with the stake option (the vested part is delegated by the vesting module itself), to a plain account or merged into a vesting account
 		unitc := sdk.NewCoin(vn.Denom, unit.MulRaw(int64(rng.Intn(900)+100)))
@@ -715,6 +732,25 @@ func (g *histGen) tx() {
 			}
 		}
 	case f == 25 || f == 26: // DAO
+		if len(g.liquid) > 0 && len(g.vestAccs) > 0 && rng.Intn(2) == 0 {
+			// a holder of a liquid denom funds the DAO with two denominations at once (the liquid
+			// tokens are handed out as ERC20: they are converted to coins first)
+			d := g.liquid[rng.Intn(len(g.liquid))]
+			v := g.vestAccs[rng.Intn(len(g.vestAccs))]
+			if g.usedInBlk[v.Addr.String()] {
+				break
+			}
+			g.usedInBlk[v.Addr.String()] = true
+			if bal := n.Balance(v.Addr, d); bal.IsPositive() {
+				x := sdkmath.MinInt(bal, unit.MulRaw(int64(rng.Intn(5)+1)))
+				if g.cosmos("dao.fund-two-denoms", v, ucdaotypes.NewMsgFund(sdk.NewCoins(sdk.NewCoin(vn.Denom, sdkmath.NewInt(int64(rng.Intn(5000)+1))), sdk.NewCoin(d, x)), v.Addr)) {
+					g.constr["dao-holder-with-several-denoms"]++
+				}
+			} else if pair, ok := n.App.Erc20Keeper.GetTokenPair(n.Ctx(), n.App.Erc20Keeper.GetTokenPairID(n.Ctx(), d)); ok {
+				g.cosmos("erc20.convert-erc20", v, erc20types.NewMsgConvertERC20(unit.MulRaw(int64(rng.Intn(9)+2)), v.Addr, pair.GetERC20Contract(), v.Eth))
+			}
+			break
+		}
 		switch rng.Intn(3) {
 		case 0:
 			g.cosmos("dao.fund", a, ucdaotypes.NewMsgFund(sdk.NewCoins(amt(50)), a.Addr))
@@ -730,7 +766,12 @@ func (g *histGen) tx() {
 			id := n.App.Erc20Keeper.GetTokenPairID(n.Ctx(), d)
 			if pair, ok := n.App.Erc20Keeper.GetTokenPair(n.Ctx(), id); ok && !g.usedInBlk[v.Addr.String()] {
 				g.usedInBlk[v.Addr.String()] = true
-				if rng.Intn(2) == 0 {
+				if k := rng.Intn(4); k >= 2 {
+					// bank MsgSend of a denom that has a token pair: Haqq's wrapper converts what the sender holds as ERC20
+					if g.cosmos("bank.send-paired-denom", v, banktypes.NewMsgSend(v.Addr, b.Addr, sdk.NewCoins(sdk.NewCoin(d, unit.MulRaw(int64(rng.Intn(9)+1)))))) {
+						g.constr["bank-send-of-a-paired-denom"]++
+					}
+				} else if k == 0 {
 					g.cosmos("erc20.convert-erc20", v, erc20types.NewMsgConvertERC20(unit.MulRaw(int64(rng.Intn(9)+1)), v.Addr, pair.GetERC20Contract(), v.Eth))
 				} else {
 					g.cosmos("erc20.convert-coin", v, erc20types.NewMsgConvertCoin(sdk.NewCoin(d, unit.MulRaw(int64(rng.Intn(9)+1))), v.Eth, v.Addr))
